@@ -7,7 +7,7 @@ SAN ?= -fsanitize=address,undefined -fno-sanitize-recover=undefined
 OPT ?= -O1
 COMMON = $(OPT) -g $(SAN) -fno-omit-frame-pointer -DEVENTPP_VERIF -I$(REPO)/include -MMD -MP -Wall -Wextra -Wno-unused-parameter
 
-CON_BINS = con_list
+CON_BINS = con_list con_queue
 SEQ_BINS =
 ALL_BINS = $(CON_BINS) $(SEQ_BINS)
 
